@@ -243,10 +243,29 @@ def caseLine (t : Tables) (st : CaseState) (ws : List String) : CaseState :=
       | "aliases", vs => match hexListArgs vs with
         | some as => upd fun c => { c with aliases := as }
         | none => fail "bad aliases"
+      | "name", [v] => match unhexArg v with
+        | some b => upd fun c => { c with name := b }
+        | none => fail "bad name"
       | "ns", [v] => match unhexArg v with
         | some b => upd fun c => { c with groups := listModify c.groups 0 fun g => { g with ns := b } }
         | none => fail "bad ns"
       | _, _ => fail ("bad setcmd: " ++ " ".intercalate ws)
+  | none, "setopt" :: uid :: gi :: oi :: attr :: vals =>
+    -- the program assigns a public field of an option between operations
+    match uid.toNat?.bind st.cmdIdx, gi.toNat?, oi.toNat?, vals.mapM unhexArg with
+    | some ci, some g, some o, some vs =>
+      let upd (f : Opt → Opt) : CaseState := { st with P := st.P.modOpt ⟨ci, g, o⟩ f }
+      match attr with
+      | "long" => upd fun x => { x with long := vs.headD [] }
+      | "short" => upd fun x => { x with short := (decodeRune (vs.headD [])).1 * (if vs.headD [] = [] then 0 else 1) }
+      | "choices" => upd fun x => { x with choices := vs }
+      | "mask" => upd fun x => { x with defaultMask := vs.headD [] }
+      | "default" => upd fun x => { x with dflt := vs }
+      | "desc" => upd fun x => { x with desc := vs.headD [] }
+      | "required" => upd fun x => { x with required := vs.headD [] == [0x31] }
+      | "hidden" => upd fun x => { x with hidden := vs.headD [] == [0x31] }
+      | _ => fail "bad setopt attr"
+    | _, _, _, _ => fail "bad setopt"
   | none, ["setgrp", uid, gi, attr, v] =>
     match uid.toNat?.bind st.cmdIdx, gi.toNat? with
     | some ci, some g =>
